@@ -145,7 +145,10 @@ func (g *metaGenState) cref(p int) string {
 // parts / repeated appends are deduplicated onto one id), several copies sharing those parts, then deletes in
 // random order with a full read-back after each — the histories in which reference counting decides whether
 // surviving objects stay readable
-func metaGenSharing(r *Rng) string {
+func metaGenSharing(r *Rng) string { return metaGenSharingX(r, true) }
+
+// ext=false: core operations only (no UploadPartCopy)
+func metaGenSharingX(r *Rng, ext bool) string {
 	hb := func(s string) string { return tokBytes(s) }
 	b := hb(metaBuckets[0])
 	pool := [][]byte{r.Bytes(1 + r.Intn(12)), r.Bytes(1 + r.Intn(12)), {}}
@@ -176,7 +179,7 @@ func metaGenSharing(r *Rng) string {
 	live := []string{keys[0]}
 	for i := 1; i <= 1+r.Intn(3); i++ {
 		src := live[r.Intn(len(live))]
-		if r.Chance(25) {
+		if ext && r.Chance(25) {
 			u := len(ops)
 			ops = append(ops, "cmu:"+b+":"+keys[i])
 			ops = append(ops, "upc:"+b+":"+src+":-:"+b+":"+keys[i]+":#"+strconv.Itoa(u)+":1:-:-")
